@@ -1,5 +1,6 @@
 import P2.Props.C12
 import P2.Props.C12b
+import P2.Props.C12c
 #print axioms P2.Props.C12.foldPath_inj
 #print axioms P2.Props.C12.foldPath_index
 #print axioms P2.Props.C12.verify_binds
@@ -9,3 +10,16 @@ import P2.Props.C12b
 #print axioms P2.Props.C12.cap_eq_levelwise
 #print axioms P2.Props.C12.prove_verifies
 #print axioms P2.Props.C12.prove_siblings
+#print axioms P2.Props.C12.batchFold_nil
+#print axioms P2.Props.C12.verifyBatch_single
+#print axioms P2.Props.C12.batchFold_inj
+#print axioms P2.Props.C12.batchFold_index
+#print axioms P2.Props.C12.verifyBatch_binds
+#print axioms P2.Props.C12.other_batch_opening_rejected
+#print axioms P2.Props.C12.altered_batch_cap_rejected
+#print axioms P2.Props.C12.stage_eq
+#print axioms P2.Props.C12.batchFold_prefix
+#print axioms P2.Props.C12.batch_two_complete
+#print axioms P2.Props.C12.embedsTwo_sponge
+#print axioms P2.Props.C12.toVec_inj
+#print axioms P2.Props.C12.embedsTwo_keccak
